@@ -77,16 +77,19 @@ CLAIMED = {
     "C05": dict(cat="model_checking", ref="DESIGN.md 3.5, 6 (C05)",
                 text="TLC checks PhantomOK/GetMissOK (every absent key of the covered interval, inserted, changes a recorded version) in all states of small models; on "
                      "real executions TLC judges (a) real probe inserts after scan / get-miss / iscan against the recorded pairs, (b) the model-based insertion of "
-                     "every absent candidate key into the conforming tree, (c) non-emptiness of the collected set.", note=SEQ_NOTE, tech=SEQ_TECH),
+                     "every absent candidate key into the conforming tree, (c) non-emptiness of the collected set. The cursor's callback set is also decided exhaustively: "
+                     "YkIscan (iscan_findfirst / iscan_findnext transliterated) in every reachable state of MC_Tree for all endpoint / direction / stop-after-n arguments "
+                     "(IscanPhantomOK), bound to the code by TraceTree's iscan-model conjunct (result and callback sequence of every real cursor = the model's).", note=SEQ_NOTE, tech=SEQ_TECH),
     "C08": dict(cat="model_checking", ref="DESIGN.md 3.5, 6 (C08)",
                 text="TLC checks WellFormed + Abs = map as invariants of all sequential histories of small models, and on canonical dumps of the real tree every few "
                      "operations: sorted unique entries, separators bound subtrees, parent/child and prev/next consistency, leaf chain = in-order borders, no dirty or "
                      "locked node, chain listing = descent lookups = abstract map. Concurrent histories: the Quiescent invariant of YkConc .. YkConc4 in all interleavings "
                      "(found F14: stale sibling links in a surviving empty root), step-level conformance of the real code to them, and the quiescent dump of every "
-                     "scheduler-driven run (families incl. pair and chain) judged by WellFormed + three-view equality (TraceLin QUIES).", note=SEQ_NOTE + "; concurrent part: " + CONC_NOTE,
+                     "scheduler-driven run (families incl. pair, chain and collapse2 = two interior levels, collapse of an inner interior vs split vs descent) judged by WellFormed + three-view equality (TraceLin QUIES).", note=SEQ_NOTE + "; concurrent part: " + CONC_NOTE,
                 tech=SEQ_TECH + "; " + CONC_TECH),
     "C10": dict(cat="model_checking", ref="DESIGN.md 6 (C10)",
-                text="M (second sentence): the cursor at hook grain in YkConc4 (iscan_open, iscan_next with iscan_check_retry, neighbour move, retry_after_fb, "
+                text="M (first sentence): YkIscan = iscan_findfirst / iscan_findnext transliterated; IscanOK / IscanPrefixOK (result = abstract interval in cursor order, every "
+                     "stop point a prefix) in every reachable state of the small tree models for all arguments, bound by TraceTree iscan-model. M (second sentence): the cursor at hook grain in YkConc4 (iscan_open, iscan_next with iscan_check_retry, neighbour move, retry_after_fb, "
                      "retry_from_root) over 2-3 borders vs split, interior insert, collapse / new root, insert, remove, unlink + re-insert: ScanOK, NvOK in all "
                      "interleavings of 5 programs, and step-level conformance of the real cursor to it. First sentence (sequential cursor): every real iscan_open/next sequence (both directions, all endpoint kinds, early stop) is judged by TLC "
                      "against the ordered abstract map incl. full_key and argument rejection. Second sentence: cursor steps of one thread interleaved with writers "
@@ -96,8 +99,10 @@ CLAIMED = {
                 tech="TLC trace validation of real cursor executions (TraceTree ON={C10}); " + CONC_TECH),
     "C12": dict(cat="model_checking", ref="DESIGN.md 6 (C12)",
                 text="TLC checks the report rule on every inserting/updating Put of small models (LastOK) and judges every real put (inserted_node_info and legacy "
-                     "overload) against the set of border version words that actually changed (driver snapshots all borders before/after) and the split sibling.",
-                note=SEQ_NOTE, tech=SEQ_TECH),
+                     "overload) against the set of border version words that actually changed (driver snapshots all borders before/after) and the split sibling. "
+                     "Racing puts (same key, same border, a border that splits, a layer root) under the deterministic scheduler: the border version words a call's own "
+                     "unlocks advanced (from the scheduler's access log) must be exactly the nodes it reported, judged by TLC (TraceLin put-report-concurrent).",
+                note=SEQ_NOTE + "; concurrent part: " + CONC_NOTE, tech=SEQ_TECH + "; " + CONC_TECH),
     "C13": dict(cat="model_checking", ref="DESIGN.md 3.4, 6 (C13)",
                 text="TLC checks isolation (an operation addressed to one storage changes no other) and DDL statuses as action properties of the YkMap state machine; "
                      "every create/delete/find/list and every data call by name (existing and unknown names: empty, binary, long, prefix-sharing) on the real code is "
@@ -127,7 +132,7 @@ CLAIMED = {
                 text="TLC explores all reachable orderings of YkPerm for F=6 (8 in thorough) and judges a replay of the real 64-bit permutation word (every count, rank, "
                      "free slot on an ordering family + random walks) against the sequence operators; exactly one word store per update. Reader side of the last "
                      "sentence: lookups of a leaf's keys (incl. the greatest, last rank) racing with removes / inserts in the same leaf under the scheduler, every single "
-                     "preemption, judged by the linearization search (TraceLin).",
+                     "preemption, judged by the linearization search (TraceLin); heap values and inline (std::uintptr_t) values.",
                 note="single atomic word assumed (std::atomic<uint64_t>); F=15 orderings sampled, not enumerated.",
                 tech="TLA+ model checking (TLC) + TLC trace validation of replayed implementation transitions"),
     "C20": dict(cat="model_checking", ref="DESIGN.md 6 (C20)",
